@@ -30,7 +30,7 @@ ASSUMPTIONS = [
 
 @st.composite
 def cases(draw, tier):
-    spec = draw(nets.net_spec(cls="H", max_edges=7, max_size=4, allow_empty=False, with_attrs=False))
+    spec = draw(nets.net_spec(wide_labels="mixed", cls="H", max_edges=7, max_size=4, allow_empty=False, with_attrs=False))
     m = len(spec["edges"])
     ws = draw(st.lists(st.sampled_from([0.5, 1, 1, 2, 3, 10]), min_size=m, max_size=m))
     use_w = draw(st.booleans())
